@@ -98,6 +98,13 @@ class Closure:
         self.live_env = live_env
 
 
+class _ModProxy:
+    """a repo module bound to a local name by `import package as alias`"""
+
+    def __init__(self, mod):
+        self.mod = mod
+
+
 class _Partial:
     """functools.partial over an interpreted callable"""
 
@@ -256,6 +263,25 @@ class Evaluator:
             r = Raised(src(s))
             r.exc_name = name
             raise r
+        if isinstance(s, ast.ImportFrom) and s.level > 0:
+            # a function-level `from .module import Name`: bind the repo object so that the name resolves like a module-level import
+            base = fi.module.name.split(".")
+            pkg = base[: len(base) - s.level] if len(base) >= s.level else []
+            target = ".".join(pkg + ([s.module] if s.module else []))
+            mod = self.prog.modules.get(target)
+            if mod is not None:
+                for al in s.names:
+                    tgt = self.prog.resolve_name(mod, al.name)
+                    if tgt is not None and (al.asname or al.name) not in self.stubs:
+                        env[al.asname or al.name] = tgt
+            return
+        if isinstance(s, ast.Import):
+            # `import symmray as sr` inside a function: the alias stands for the package namespace
+            for al in s.names:
+                mod = self.prog.modules.get(al.name)
+                if mod is not None and (al.asname or al.name.split(".")[0]) not in self.stubs:
+                    env[al.asname or al.name.split(".")[0]] = _ModProxy(mod)
+            return
         if isinstance(s, (ast.Pass, ast.Global, ast.Nonlocal, ast.Import, ast.ImportFrom)):
             return
         if isinstance(s, ast.Assert):
@@ -602,6 +628,14 @@ class Evaluator:
     def getattr(self, v, attr, fi):
         from .loader import ClassInfo, FuncInfo
 
+        if isinstance(v, _ModProxy):
+            tgt = self.prog.resolve_name(v.mod, attr)
+            if tgt is None:
+                sub = self.prog.modules.get(f"{v.mod.name}.{attr}")
+                if sub is not None:
+                    return _ModProxy(sub)
+                raise AttributeError(f"module '{v.mod.name}' has no attribute '{attr}'")
+            return tgt
         if isinstance(v, Obj) and attr == "__class__":
             return v.cls
         if isinstance(v, Obj) and attr == "__new__":
